@@ -4,6 +4,7 @@
 package kit
 
 import (
+	"sync"
 	"encoding/json"
 	"fmt"
 	"go/ast"
@@ -52,6 +53,27 @@ type Prog struct {
 	byLit   map[*ast.FuncLit]*Func
 	parents map[*ast.File]map[ast.Node]ast.Node
 	graphs  map[*Func]*Graph
+
+	auxMu sync.Mutex
+	aux   map[string]any
+}
+
+// Aux returns the per-program value stored under key, creating it with mk on
+// first use.  Caches that hold AST nodes, functions or types of a program live
+// here so that they are released together with the program (the sensitivity
+// sweep loads hundreds of variants in one process).
+func (p *Prog) Aux(key string, mk func() any) any {
+	p.auxMu.Lock()
+	defer p.auxMu.Unlock()
+	if p.aux == nil {
+		p.aux = map[string]any{}
+	}
+	v, ok := p.aux[key]
+	if !ok {
+		v = mk()
+		p.aux[key] = v
+	}
+	return v
 }
 
 // Load type-checks the repository.  Any error in a root package that belongs
